@@ -43,7 +43,7 @@ package obfs4
 // the NEXT 20 bytes become the node id - 52 bytes are consumed, in that order.
 //@ import io "io"
 //@ func generateObfs4Keys(rand io.Reader) (Obfs4Keys, error)
-//@   requires rand != nil
+//@   requires @SAFETY: rand != nil
 //@   atcall Read#1 before: assert @C01: arg0 == rand && len(arg1) == 32
 //@   atcall Read#2 before: assert @C01: arg0 == rand && len(arg1) == 20 && drawn(rand) == old(drawn(rand)) + 32
 //@   atcall X25519 before: assert @C01: len(arg0) == 32 && arg1 == curve25519.Basepoint
